@@ -193,6 +193,14 @@ theorem step_chems (p : PWorld) (op : Op) (c : Nat) (chem : Chem) (cas : List St
     · split
       · exact keep _ rfl
       · split <;> exact keep _ rfl
+  | resetChem i c' =>
+    simp only [PWorld.step]
+    repeat' split
+    all_goals exact keep _ rfl
+  | copyIx i =>
+    simp only [PWorld.step]; split <;> exact keep _ rfl
+  | getIndex c' key =>
+    simp only [PWorld.step]; split <;> exact keep _ rfl
   | copyLike l r =>
     simp only [PWorld.step, PWorld.transfer]
     repeat' split
